@@ -154,7 +154,7 @@ def audit(pid: str) -> dict:
 
 
 TIE_THEOREM = {"Secs": "secs_tie", "NoteDur": "noteDur_tie", "BpmDecode": "bpmDecode_tie", "BpmValid": "bpmValid_tie",
-               "Nps": "nps_tie", "Anchor": "anchor_tie", "Hopo": "hopo_tie",
+               "Nps": "nps_tie", "Anchor": "anchor_tie", "Hopo": "hopo_tie", "Scan": "scan_tie",
                "Phrase": ["tickAdd_tie", "endTick_tie", "after_tie", "during_tie"]}
 
 
